@@ -116,6 +116,22 @@ Theorem C09_root_name :
 Proof. exact p_root. Qed.
 Print Assumptions C09_root_name.
 
+(* Secondary: every valid name passes ValidateDomainName, so AddQuestion accepts it and appends the
+   question with the count updated. *)
+Theorem C09_valid_names_validate : forall s, text_name_ok s -> validate_name s = 0.
+Proof. exact p_valid_names_validate. Qed.
+Print Assumptions C09_valid_names_validate.
+
+Theorem C09_add_question_valid : forall m q, text_name_ok (q_name q) ->
+  add_question m q = (0, set_questions m (m_questions m ++ [q]) (wrap16 (lenN (m_questions m ++ [q])))).
+Proof. exact p_add_question_valid. Qed.
+Print Assumptions C09_add_question_valid.
+
+(* Secondary: the encoder refuses every name that has a label longer than 63 bytes. *)
+Theorem C09_long_label_rejected : forall s l, In l (split_dot s) -> 63 < lenN l -> encode_name s = Err.
+Proof. exact p_long_label_rejected. Qed.
+Print Assumptions C09_long_label_rejected.
+
 (* ---- Non-vacuity: the hypotheses are satisfiable and the statements compute ---- *)
 
 Definition ex_www : name := [[119; 119; 119]; [116; 101; 115; 116]; [108; 111; 99; 97; 108]]. (* www.test.local *)
